@@ -31,7 +31,7 @@ fn gh_inc(outlen: usize, key: Option<&[u8]>, parts: &[&[u8]]) -> Vec<u8> {
 pub fn generate(seed: u64, tier: Tier) -> Vec<Line> {
     let mut v: Vec<Line> = vec![];
     let maxlen = tier.pick(800usize, 1100);
-    let fills = tier.pick(2usize, 8);
+    let fills = tier.pick(2usize, 32);
     // --- BLAKE2b one-shot + incremental, SHA-512, HMAC
     for len in 0..=maxlen {
         for fi in 0..fills {
@@ -81,7 +81,7 @@ pub fn generate(seed: u64, tier: Tier) -> Vec<Line> {
         }
     }
     // --- Curve25519 / Ed25519 / box family
-    let n = tier.pick(1000usize, 6000);
+    let n = tier.pick(1000usize, 20_000);
     for i in 0..n {
         let mut f = Fill::new(seed, &format!("C18:ec:{i}"));
         let (sa, sb): ([u8; 32], [u8; 32]) = (f.arr(), f.arr());
@@ -120,7 +120,7 @@ pub fn generate(seed: u64, tier: Tier) -> Vec<Line> {
         v.push(Line { id: format!("sign-prehashed/{i}"), out: ph.to_vec(), reference: Some(sodium::sign_ph_create(&[&msg], &ssk).to_vec()), nontrivial: true });
     }
     // --- Argon2 grid (small memory)
-    let pn = tier.pick(120usize, 1200);
+    let pn = tier.pick(120usize, 5000);
     for i in 0..pn {
         let mut f = Fill::new(seed, &format!("C18:pw:{i}"));
         let outlen = 16 + (i * 7) % 150;
